@@ -223,6 +223,23 @@ def _build(spec, rso_mod=None, variant=None):
     from rsome import ro
     variant = variant or {}
     rng = np.random.default_rng(spec['spell'] + int(variant.get('respell', 0)))
+    # container in which a constraint's own set reaches forall(): drawn from a generator of its
+    # own, so that the spellings of older cases keep their draws
+    crng = np.random.default_rng(spec['spell'] + 4711 + int(variant.get('respell', 0)))
+
+    def set_container(cons):
+        k = int(crng.integers(6))
+        if k == 0:
+            return (list(cons),)
+        if k == 1:
+            return tuple(cons)                          # several arguments
+        if k == 2:
+            return ((c_ for c_ in cons),)               # one-shot iterables
+        if k == 3:
+            return (map(lambda c_: c_, cons),)
+        if k == 4:
+            return (tuple(cons[:1]), iter(cons[1:])) if len(cons) > 1 else (iter(cons),)
+        return (tuple(cons),)
     m = ro.Model()
     B = Built()
     B.model = m
@@ -361,7 +378,7 @@ def _build(spec, rso_mod=None, variant=None):
         obj = pcs[0]
     else:
         obj = rso.maxof(*pcs) if mode in ('min', 'minmax') else rso.minof(*pcs)
-    how = variant.get('set_args', int(rng.integers(3)))
+    how = variant.get('set_args', int(rng.integers(4)))
     if how == 0:
         sargs = (dset_constr,)
     elif how == 1:
@@ -495,7 +512,7 @@ def _build(spec, rso_mod=None, variant=None):
                 # the hook does in between
                 late_forall.append((c, own))
             elif own is not None:
-                c = c.forall(own())
+                c = c.forall(*set_container(own()))
             B.user_constr.append(c)
             if variant.get('st_nested'):
                 pending_st.append(c)
@@ -506,7 +523,7 @@ def _build(spec, rso_mod=None, variant=None):
     if late_forall:
         _hook(variant, 'late_forall', B)
         for c, own in late_forall:
-            c.forall(own())
+            c.forall(*set_container(own()))
     B.late_forall = len(late_forall)
     return B
 
